@@ -18,7 +18,7 @@ RULE = ("Exhaustive: every r x c integer table with entries in {0,1,2} for r,c <
         "Sampled: rectangular tables up to 6 x 6 of one documented type: ints near every dtype boundary of get_dtype "
         "(255/256, 2^16, 2^31, 2^32, 2^63-1, negatives down to -2^63) kept inside the documented range, floats, "
         "booleans, tables with many ties, sparse int/float tables with missing pairs incl. all-missing rows, columns and "
-        "tables. Oracle for every table: the result is one-to-one, uses only existing pairs and reports for each pair "
+        "tables; short call histories of 2-3 tables of different element types with coinciding extremes (results must not depend on earlier calls). Oracle for every table: the result is one-to-one, uses only existing pairs and reports for each pair "
         "the table's own entry with its type; for complete tables additionally |matching| = min(r,c) and the total "
         "equals the brute-force minimum over all injections (<= 720 per table; floats with relative tolerance 1e-12); "
         "get_dtype(lo,hi) can represent lo and hi. Non-trivial: non-square, or a tie on the optimum, or a missing pair. "
@@ -33,17 +33,20 @@ MANIFEST_TEXT = ("Differential check of the assignment routine against brute for
                  "checked for every table, optimality where no pair is missing, as the property states.")
 MANIFEST_NOTE = "Trusts itertools.permutations brute force as the optimum."
 DESIGN_REF = 'DESIGN.md section 3, C15'
-SHRINK = {'docs': ['w']}
+SHRINK = {'docs': ['w'], 'lists': ['tables']}
 
 
 def _beyond_2p53(case, key, detail):
-    return any(isinstance(x, int) and not isinstance(x, bool) and abs(x) > 2 ** 53 for r in case['w'] for x in r)
+    tables = case['tables'] if 'tables' in case else [case['w']]
+    return any(isinstance(x, int) and not isinstance(x, bool) and abs(x) > 2 ** 53 for w in tables for r in w for x in r)
 
 
 PREDICATES = {'weights_beyond_2p53': _beyond_2p53}
 
 
 def valid(case):
+    if 'tables' in case:
+        return isinstance(case['tables'], list) and all(valid({'w': w}) for w in case['tables'])
     w = case.get('w')
     if not isinstance(w, list) or not all(isinstance(r, list) for r in w):
         return False
@@ -116,13 +119,37 @@ def jobs(tier):
     js = []
     n = 120 if tier == 'quick' else 4000
     for s in range(16):
-        for name in strategies():
+        for name in list(strategies()) + ['history']:
             js.append({'kind': 'gen', 'strategy': name, 'n': n, 'shard': s})
         js.append({'kind': 'enum', 'tier': tier, 'shard': s})
     return js
 
 
+@st.composite
+def histories(draw):
+    """2-3 tables of different element types whose extremes coincide (ints 0..k, then floats in [0.0, k], then booleans)"""
+    k = draw(st.sampled_from([1, 1, 2, 3]))
+    dims = st.tuples(st.integers(1, 3), st.integers(1, 3))
+
+    def tab(elem):
+        r, c = draw(dims)
+        rows = [[draw(elem) for _ in range(c)] for _ in range(r)]
+        return rows
+    ints = tab(st.integers(0, k))
+    ints[0][0] = 0
+    ints[-1][-1] = k
+    fl = tab(st.sampled_from([0.0, float(k), 0.25, 0.5, 0.75, k - 0.25, 0.1]))
+    fl[0][0] = 0.0
+    fl[-1][-1] = float(k)
+    bools = tab(st.booleans())
+    order = draw(st.permutations([ints, fl, bools] if k == 1 else [ints, fl]))
+    return {'tables': list(order)}
+
+
 def run_job(job, seed, sink):
+    if job['kind'] == 'gen' and job['strategy'] == 'history':
+        hyp_drive(histories(), job['n'], seed, sink)
+        return
     if job['kind'] == 'gen':
         hyp_drive(strategies()[job['strategy']].map(lambda w: {'w': w}), job['n'], seed, sink)
         return
@@ -139,6 +166,18 @@ def run_job(job, seed, sink):
 
 
 def check(case):
+    if 'tables' in case:
+        # a short history of calls in one process: results must not depend on which tables were solved before
+        out = Outcome()
+        for i, w in enumerate(case['tables']):
+            o = check({'w': w})
+            for k, d in o.failures:
+                out.fail(k, f"(table {i + 1} of a history of {len(case['tables'])}) {d}")
+            out.nontrivial = out.nontrivial or o.nontrivial
+            if out.failures:
+                break
+        out.label('history')
+        return out
     out = Outcome()
     w = case['w']
     r = len(w)
